@@ -50,6 +50,16 @@ p_sys_close (pint fd)
 			return -1;
 	}
 #else
-	return close (fd);
+	pint res = close (fd);
+
+#  ifdef EINTR
+	/* Everywhere but on HP-UX an interrupted close() has released the
+	 * descriptor all the same: reporting a failure would make the callers
+	 * close the same number once more later */
+	if (P_UNLIKELY (res != 0 && errno == EINTR))
+		return 0;
+#  endif
+
+	return res;
 #endif
 }
